@@ -2161,7 +2161,12 @@ func (r *Repository) createNewObjectPack(cfg *RepackConfig) (h plumbing.Hash, er
 	if err != nil {
 		return h, err
 	}
-	defer ioutil.CheckClose(wc, &err)
+	closed := false
+	defer func() {
+		if !closed {
+			ioutil.CheckClose(wc, &err)
+		}
+	}()
 	scfg, err := r.Config()
 	if err != nil {
 		return h, err
@@ -2169,6 +2174,14 @@ func (r *Repository) createNewObjectPack(cfg *RepackConfig) (h plumbing.Hash, er
 	enc := packfile.NewEncoder(wc, r.Storer, cfg.UseRefDeltas)
 	h, err = enc.Encode(objs, scfg.Pack.Window)
 	if err != nil {
+		return h, err
+	}
+
+	// Closing the writer is what indexes the new pack and moves it to its
+	// final name. The loose copies may only go once that has happened:
+	// until then they are the only readable copy of those objects.
+	closed = true
+	if err = wc.Close(); err != nil {
 		return h, err
 	}
 
